@@ -48,7 +48,7 @@ def strategy(tier):
     pr = st.fixed_dictionaries({'kind': st.sampled_from(['process', 'remote', 'p_process', 'p_remote']),
                                 'beh': st.sampled_from(['coop', 'swallow', 'sleep', 'gil', 'stop', 'finished', 'norun', 'linger']), 'ops': _ops(False)})
     # the most unresponsive child of all: its whole host vanishes (control connection reset / closed, data connection silent; engine FAKEHOST)
-    hv = st.fixed_dictionaries({'kind': st.sampled_from(['remote', 'p_remote']), 'beh': st.just('host_vanished'), 'ctrl': st.sampled_from(['rst', 'fin']), 'ops': _ops(False)})
+    hv = st.fixed_dictionaries({'kind': st.sampled_from(['remote', 'p_remote']), 'beh': st.just('host_vanished'), 'ctrl': st.sampled_from(['rst', 'fin', 'rst', 'fin', 'rst', 'fin', 'rst', 'fin', 'rst', 'silent']), 'ops': _ops(False)})
     return st.one_of(th, pr, pr, pr, pr, pr, pr, hv)
 
 
@@ -94,7 +94,7 @@ def run_case(case, ctx):
     live_uncoop = beh in ('swallow', 'sleep', 'gil', 'stop', 'linger', 'host_vanished')
     w = None
     records = []
-    site0 = f'{kind}:{beh}'
+    site0 = f'{kind}:{beh}' + (('_ctrl_' + case.get('ctrl', 'rst')) if beh == 'host_vanished' else '')
     sig0 = _SELF_SIGTERM['n']
     try:
         try:
